@@ -12,7 +12,7 @@ from .common import call
 
 PROP = "C16"
 LEVEL = "fault_enumeration"
-CASES = {"quick": 240, "thorough": 50000}
+CASES = {"quick": 400, "thorough": 50000}
 SHARDS = {"quick": 8, "thorough": 16}
 ANCHORS = [
     "api.py:Converter.pd_compress", "api.py:Converter.pd_expand", "api.py:Converter.pd_standardize_prefix",
@@ -127,6 +127,12 @@ def run_case(ctx, g, rng):
     recs = gen.records(rng, d, 1, 3)
     if not recs:
         return
+    if rng.random() < 0.3 and recs[0].uri_prefix and not any(r.prefix == "zznest" for r in recs):
+        # nested URI prefixes inside one map (".../obo/" and ".../obo/GO_"): the longest one decides, cell by cell, in
+        # whatever order the records were registered (seed C16-G)
+        nest = recs[0].uri_prefix + rng.choice(["GO_", "N", "x/"])
+        if not any(nest in spec.all_u(r) for r in recs) and d not in "zznest":
+            recs.append(spec.Rec("zznest", nest, (), (), None))
     conv = api.Converter([gen.mk_record(api, r) for r in recs], delimiter=d)
 
     def fresh():
@@ -138,7 +144,20 @@ def run_case(ctx, g, rng):
             return gen.hooked_subclass(api)([gen.mk_record(api, r) for r in recs], delimiter=d)
         # (one bulk call in four works on the product of another operation - a rewired, remapped, chained or subset converter:
         #  what the scalar methods answer there is what the bulk call must write; seed C16-V)
-        c, how = gen.build(api, recs, d, rng, "via-derivation" if rng.random() < 0.25 else None)
+        #  another quarter is extended after construction (seed C16-G needs an incrementally registered nested prefix)
+        pick = rng.random()
+        if pick > 0.85 and len(recs) > 1:
+            # extended after construction with nobody watching, shorter URI prefixes first (so that nested, longer ones
+            # arrive later), and used for the bulk call at once: whatever the scalar methods do on first use happens inside it
+            with probe.monitor_mode():
+                order = sorted(recs, key=lambda r: len(r.uri_prefix))
+                k = rng.randint(1, len(order) - 1)
+                c = api.Converter([gen.mk_record(api, r) for r in order[:k]], delimiter=d)
+                for r in order[k:]:
+                    c.add_prefix(r.prefix, r.uri_prefix, list(r.psyn), list(r.usyn))
+            S.counters["wl:build:extended-after-construction-unobserved"] += 1
+            return c
+        c, how = gen.build(api, recs, d, rng, "via-derivation" if pick < 0.25 else rng.choice(["incremental", "mixed"]) if pick < 0.5 else None)
         S.counters[f"wl:build:{how}"] += 1
         return c
 
